@@ -148,7 +148,8 @@ func VerifC14_CancelKeepsOthers() {
 // one reaches the reader in order, the syncs' sender is never held up, and the
 // stalled listener still gets all of them, in order, once it starts reading.
 func VerifC14_StalledListenerManyEvents() {
-	const n = 40
+	// (well past any small fixed queue size: 16, 64, 128)
+	n := 150 + 150*verif_Tier()
 	chain := c01chain(1)
 	v := newVSub(chain, -1, 0, 0, true)
 	go v.s.distributeEvents()
@@ -243,4 +244,28 @@ func VerifC14_ResyncAfterRollbackIsNotified() {
 		n++
 	}
 	verif_Assert(n == 2, "every listener receives both notifications")
+}
+
+// C14 / C15 (listener registration racing with or following Close): a listener
+// registered after the subscriber was closed gets a channel that is closed —
+// a reader ranging over it returns instead of blocking for ever — and its
+// cancel function is harmless.
+func VerifC14_ListenerRegisteredAfterClose() {
+	chain := c01chain(1)
+	v := newLiveSub(chain, 0)
+	before, _ := v.s.OnSyncFinished()
+	verif_Assert(v.s.Close() == nil, "Close succeeds")
+	for range before {
+		verif_Assert(false, "no notification without a sync")
+	}
+	n := verif_Choose("listenersAfterClose", 1, 2)
+	for i := 0; i < n; i++ {
+		late, cancel := v.s.OnSyncFinished()
+		for range late { // (a channel nobody closes is reported as a hang)
+			verif_Assert(false, "no notification after Close")
+		}
+		verif_Reach("late listener's channel is closed")
+		cancel()
+		cancel()
+	}
 }
